@@ -129,6 +129,12 @@ def describe(mod: Any, fname: str, fn: Any) -> dict[str, Any]:
         params.append({"name": pname, "guard": guard, "ann": str(ann_s), "sym": sym, "dim": dim,
             "default": p.default is not inspect.Parameter.empty})
     out_sym = spec["output"] if isinstance(spec["output"], sympy.Symbol) else None
+    if out_sym is None and fname.startswith("calculate_"):
+        # no symbol-typed output guard (none at all, or validate_output_same): calculate_<x> returns the module symbol <x>
+        cand = getattr(mod, fname[len("calculate_"):], None)
+        if isinstance(cand, sympy.Symbol) and isinstance(cand, DimensionSymbol) and \
+                not isinstance(spec["output"], Dimension) and all(cand is not q["sym"] for q in params):
+            out_sym = cand
     d = {"module": mod.__name__, "name": fname, "fn": fn, "params": params, "ok": ok, "why": why, "out": spec["output"],
         "out_sym": out_sym, "decorated": spec["decorated"], "inner": inner}
     # target equation
@@ -167,6 +173,12 @@ def _is_angle(dim: Any) -> bool:
     return dim is not None and "angle" in str(getattr(dim, "name", dim))
 
 
+def _is_any(dim: Any) -> bool:
+    from symplyphysics.core.dimensions.dimensions import AnyDimension
+    return isinstance(dim, AnyDimension)
+
+
+ANY_DIMS = (MU.L, MU.ENERGY, MU.T, MU.M / MU.L**3, MU.CHARGE, MU.L / MU.T)
 MICRO = (-9, -26, -12, -6, 2, 0, 0)  # typical microscopic scales per base dimension (powers of ten)
 
 
@@ -195,6 +207,10 @@ def build_args(desc: dict[str, Any], recipe: list[Any], variant: int, profile: s
             val = -val
         ann = p["ann"]
         dv = _dimvec(p["dim"])
+        if dv is None and _is_any(p["dim"]):
+            # a parameter of any dimension: one generated dimension for all such parameters of the call
+            dv = ANY_DIMS[(recipe[0][4] + recipe[0][0]) % len(ANY_DIMS)]
+            info["any_dimension"] = dv.text()
         if profile == "tiny" and dv is not None and not dv.is_dimensionless:
             val = val * sympy.Rational(1, 10**12)
         if profile == "micro" and dv is not None and dv.is_numeric():
